@@ -5,7 +5,7 @@
 export GOFLAGS=-mod=mod GOPROXY=off GOSUMDB=off GOTOOLCHAIN=local
 ROOT=$(cd "$(dirname "$0")/.."; pwd)   # relocatable: `vp run -- ./lib/matrix_run.sh` works on the snapshot
 cd $ROOT
-mkdir -p matrix
+mkdir -p matrix /tmp/wt
 LOG=$ROOT/matrix/last_run.log
 W=/tmp/wt/matrix-wt
 run() { # name prop patch reverse
